@@ -88,6 +88,8 @@ impl<'a> Dfa<'a> {
 
     fn insert(&mut self, cluster: &GraphemeCluster) {
         let mut current_state = self.initial_state;
+        #[cfg(grex_verif)]
+        crate::verif::point("dfa.insert");
 
         for grapheme in cluster.graphemes() {
             self.alphabet.insert(grapheme.clone());
@@ -147,6 +149,8 @@ impl<'a> Dfa<'a> {
 
         while !w.is_empty() {
             let a = w.drain(0..1).next().unwrap();
+            #[cfg(grex_verif)]
+            crate::verif::point("dfa.minimize_iter");
 
             for edge_label in self.alphabet.iter() {
                 let x = self.get_parent_states(&a, edge_label);
@@ -196,6 +200,8 @@ impl<'a> Dfa<'a> {
             }
         }
 
+        #[cfg(grex_verif)]
+        crate::verif::point("dfa.before_recreate");
         self.recreate_graph(p.iter().filter(|&it| !it.is_empty()).collect_vec());
     }
 
